@@ -422,6 +422,7 @@ theorem safeS_tryCatch {β : Type} {k : Nat} {e : Errno} {P : Tree → Prop} {x 
     | destExists => exact key _ rfl (by simp)
     | rollbackErr => exact key _ rfl (by simp)
     | patchFailed => exact key _ rfl (by simp)
+    | dupId => exact key _ rfl (by simp)
 
 -- the rename phase under one injected failure ------------------------------------------------------------------------------
 
